@@ -120,8 +120,10 @@ theorem lookup_sites_baseline :
     lookupSites.all (EPV.C03Cover.lookupBaseline.contains ·) = true := by decide +kernel
 
 /-- hang part, tabulated: every `while` statement of the package (file, function, loop test) is listed in
-`EPV.C03Cover.whileBaseline` with its termination argument — three of them `proved` by theorems of this
-property (`advance_until`, the comment loop, and — in part — `expression`), the others `argued`.  A new
+`EPV.C03Cover.whileBaseline` with its termination argument — twelve of them `proved` by theorems of this
+property (`advance_until`, the comment scan, the consecutive-comments loop, `expression` in part, and
+`int_to_alphabetic`, `get_argument_tokens`, `ElementNode.iter_descendants` in EPV/Props/C03Loops.lean, five parent walks in EPV/Props/C03Loops2.lean; counted
+by `EPV.C03Loops.while_baseline_counts`), the others `argued`.  A new
 or edited `while` loop breaks this theorem until its argument is written down. -/
 theorem while_loops_baseline : whileLoops.all EPV.C03Cover.whileListed = true := by decide +kernel
 
